@@ -213,16 +213,21 @@ def gen_and_replay(rep, wd, name, k, mode, every, st, variants, workers=4, jobs=
                 nfail += 1
                 _violation(rep, "S->I", name, rec["p"], f, mode)
         if lost:
+            rechecks = 0
             for i, line in enumerate(vlib.read_ndjson(gen)):
                 if i in lost:
                     oks = [o for o in line["o"] if o["oc"] == "ok"]
                     # a hang / crash: does it disappear when the notable input variants are avoided?
-                    ver2 = ver + ".redo"
-                    vlib.run_harness(PKG, ["run", "--in", gen, "--out", ver2, "--mode", mode, "--variants", v, "--jobs", 1,
-                                           "--tick", 2, "--only", i, "--avoid", 1], timeout=600)
-                    again = [x for x in vlib.read_ndjson(ver2) if not x.get("note")]
-                    os.remove(ver2)
-                    clean = len(again) == 1 and not again[0].get("lost") and not again[0].get("fails")
+                    # (only inputs without commands have such variants; a few re-executions are enough)
+                    clean = False
+                    if any(t["k"] in ("evalnil", "dotnil") for t in line["p"]) and rechecks < 6:
+                        rechecks += 1
+                        ver2 = ver + ".redo"
+                        vlib.run_harness(PKG, ["run", "--in", gen, "--out", ver2, "--mode", mode, "--variants", v,
+                                               "--jobs", 1, "--tick", 2, "--only", i, "--avoid", 1], timeout=600)
+                        again = [x for x in vlib.read_ndjson(ver2) if not x.get("note")]
+                        os.remove(ver2)
+                        clean = len(again) == 1 and not again[0].get("lost") and not again[0].get("fails")
                     f = {"why": lost[i]["lost"], "e": -1, "t": -1, "tg": sorted({t for o in oks for t in o.get("tg", [])}),
                          "feat": "blank-line-only-input" if clean else "",
                          "expected": oks[:1], "observed": {"oc": lost[i]["lost"]}}
